@@ -182,6 +182,7 @@ structure Mon where
   wokenSincePoll : Bool := false
   lastPending : Bool := false
   yieldedAtIntr : Option Nat := none
+  coop : Bool := false            -- polled under tokio's cooperative budget (spurious Pending + wake possible)
   nEv : Nat := 0                  -- events seen so far in this run
   intrPre : Bool := false         -- the signal was already pending when the call began
 
@@ -209,7 +210,7 @@ def retText (r : Ret) (control : Bool) : String :=
   | .outcome fin p np errs =>
     let st := if fin then "F" else "I"
     let flow := if control then (if r.isBreak then "break" else "cont") else "na"
-    s!"ret state={st} processed={natsText p} notprocessed={natsText np} errs={natsText errs} flow={flow}"
+    s!"ret state={st} processed={natsText p} notprocessed={natsText np} errs={natsText (errs.mergeSort (· ≤ ·))} flow={flow}"
 
 def sameMembers (a b : List Nat) : Bool := a.all (fun x => decide (x ∈ b)) && b.all (fun x => decide (x ∈ a)) && a.length == b.length
 
@@ -306,8 +307,10 @@ def monFut (id : String) (decls : List FnDecl) (userD builtD : Dag) (a : DAcc) (
   | "ev" :: _ :: "ret" :: rest =>
     let s' := settle c m.s
     let control := hasSub m.rc.api "_control"
+    -- errors come out of a channel in the order the failing futures got to send them, which under a
+    -- cooperative budget need not be the order in which they completed: compare as sorted lists
+    let rest := rest.map (fun t => if t.startsWith "errs=" then "errs=" ++ natsText ((csvNat (t.drop 5).toString).mergeSort (· ≤ ·)) else t)
     let implText := " ".intercalate ("ret" :: rest)
-    -- errors come out of a channel in completion order: compare as given
     let modelText := match s'.result with | some r => retText r control | none => "not-returned"
     -- `NotStarted` never escapes: the state is recomputed after the stream; treat N as reported
     let a := a.cmp id "R-outcome" wh modelText implText
@@ -369,6 +372,12 @@ def monStream (id : String) (decls : List FnDecl) (userD : Dag) (a : DAcc) (m : 
       | .pending, _ => s!"pending woken={if ss'.wake then 1 else 0}"
       | _, _ => "?"
     let implText := " ".intercalate rest
+    -- under tokio's cooperative budget a poll may answer `Pending` after scheduling a wake-up of the
+    -- task although work remains (budget exhausted): allowed by C05 ("or a wake-up has been
+    -- signalled"); the model has no budget, so such a poll is not a model poll
+    if m.coop && implText == "pending woken=1" && modelText != implText then
+      (a, { m with lastPending := true, wokenSincePoll := true })
+    else
     let a := a.cmp id "S-poll" wh modelText implText
     let a := a.cmp id "S-poll" (wh ++ " panic") (toString ss'.panic) "false"
     -- real-trace predicates
@@ -476,6 +485,7 @@ def checkCase (lines : Array String) : Array String := Id.run do
   let mut nSessions := 0
   let mut nEvents := 0
   let mut lightCase := false
+  let mut sessCoop := false
   for l in lines.toList.drop 1 do
     let t := toksOf l
     match t with
@@ -642,6 +652,7 @@ def checkCase (lines : Array String) : Array String := Id.run do
         a := a.prop id "C17" "iter_rev reverse topological" (topoOrderB realG.flip (unmap (kvCsv rest "iter_rev")))
     | "session" :: rest =>
       inSession := true; started := false; mons := #[]; runCfgs := #[]; nSessions := nSessions + 1
+      sessCoop := (kv rest "coop") == some "1"
       a := { a with ctx := if (kv rest "k") == some "2" then "pair" else if nSessions > 1 then "hist" else "first" }
     | "run" :: _ :: rest => runCfgs := runCfgs.push (parseRunCfg rest)
     | "endsession" :: _ =>
@@ -656,7 +667,7 @@ def checkCase (lines : Array String) : Array String := Id.run do
             started := true
             mons := runCfgs.map (fun rc =>
               let c := mkCfg rc ⟨bo.n, bo.struct⟩ ⟨bo.n, bo.structRev⟩ bo.incoming bo.outgoing
-              { cfg := c, rc := rc, s := init c, ss := sinit c })
+              { cfg := c, rc := rc, s := init c, ss := sinit c, coop := sessCoop })
           let ri := r.toNat?.getD 0
           nEvents := nEvents + 1
           match mons[ri]? with
